@@ -50,7 +50,8 @@ PK_VARIANTS = {
     "ecdsa-521": ("ecdsa-521", "ecdsa-sha2-nistp521"),
     "ed25519": ("ed25519", "ssh-ed25519"),
 }
-SIG_KINDS = ["absent", "good", "alt_sid", "omit_sid", "alt_user", "alt_service", "alt_alg", "alt_key", "wrong_key", "corrupt"]
+SIG_KINDS = ["absent", "good", "alt_sid", "omit_sid", "alt_user", "alt_service", "alt_alg", "alt_key", "wrong_key", "corrupt",
+             "label_other", "label_garbage"]
 MIC_KINDS = ["good", "alt_sid", "alt_user"]
 
 _other_keys = {}
@@ -383,7 +384,7 @@ class AuthSession:
         if sig == "absent":
             return None
         b_sid, b_user, b_service, b_alg, b_key = self.sid, user, service, alg, key
-        signer = key
+        signer, sign_alg = key, alg
         if sig == "alt_sid":
             b_sid = req.get("_other_sid") or bytes(x ^ 0x5a for x in self.sid)
         elif sig == "alt_user":
@@ -397,6 +398,17 @@ class AuthSession:
             b_key = other_key(keykind)
         elif sig == "wrong_key":
             signer = other_key(keykind)
+        elif sig in ("label_other", "label_garbage"):
+            # the signature blob names another algorithm than the request does
+            other = {"ssh-rsa": "rsa-sha2-256", "rsa-sha2-256": "rsa-sha2-512", "rsa-sha2-512": "rsa-sha2-256"}.get(alg)
+            if sig == "label_garbage":
+                g = Message()
+                g.add_string(other or "ssh-rsa")
+                g.add_string(b"\0" * 256)
+                return g.asbytes()
+            if other is not None:
+                b_alg = other          # a genuine signature for the other RSA algorithm (blob and hash), request says alg
+                sign_alg = other
         elif sig not in ("good", "corrupt", "omit_sid"):
             raise Machinery("unknown signature kind %r" % (sig,))
         m = Message()
@@ -409,7 +421,15 @@ class AuthSession:
         m.add_boolean(True)
         m.add_string(b_alg)
         m.add_string(b_key.asbytes())
-        s = signer.sign_ssh_data(m.asbytes(), alg).asbytes()
+        s = signer.sign_ssh_data(m.asbytes(), sign_alg).asbytes()
+        if sig == "label_other" and sign_alg == alg:
+            # not an RSA key: a genuine signature over the right data, its label replaced by another algorithm's name
+            g = Message(s)
+            g.get_binary()
+            r = Message()
+            r.add_string("ssh-rsa")
+            r.add_string(g.get_binary())
+            s = r.asbytes()
         if sig == "corrupt":
             s = s[:-3] + bytes([s[-3] ^ 0x40]) + s[-2:]
         return s
@@ -600,7 +620,7 @@ def real_other_session_id():
 
 from harness.core import cfg_text  # noqa: E402
 
-TOGGLES = {"GssHonoursCallback": True, "BlobOmits": "", "KeepsResultAfterBadSig": False,
+TOGGLES = {"GssHonoursCallback": True, "BlobOmits": "", "KeepsResultAfterBadSig": False, "KeepsResultOnForeignLabel": False,
            "ProbeAuthenticates": False, "PinsUser": True, "PartialCounts": False, "CapOffset": 0}
 ALL_CONFIGS = {"plain", "gss", "gss+ctx", "gss+bound", "gss+ctx+bound"}
 INVS = ["GrantNeedsApproval", "OneUser", "CapRespected"]
